@@ -120,4 +120,30 @@ CLAIMS["C04"] = {
     "design_ref": "DESIGN.md §4 C04",
 }
 
+CLAIMS["C20"] = {
+    "technique": "event-language check and symbolic byte-count ledger over enumerated MIR paths (loops unrolled 0..2 times)",
+    "text": "Decides the property for every Write implementation honouring write_all's contract: on every successful path the sequence of "
+            "write_all arguments equals the documented grammar - status-line template with the three code bytes copied from "
+            "status.as_str(), canonical reason or \"Custom\", then (\"\\n\" name \": \" value) per iterator item in order, then "
+            "\"\\n\\n\"; \"Location: \" loc \"\\n\\n\" for the redirect (R20.1); the returned count equals the sum of written lengths as linear "
+            "expressions over len() atoms on every path (R20.2); only write_all is used and every result is `?`-propagated, so an exhausted "
+            "destination fails instead of reporting success (R20.3); http_headers delegates with the response's status and header iteration "
+            "order. Requires feature http (not compiled by the pinned suite).",
+    "note": "write_all's contract (all bytes or Err) trusted; http::StatusCode::as_str / canonical_reason are the dependency's.",
+    "design_ref": "DESIGN.md §4 C20",
+}
+CLAIMS["C11"] = {
+    "technique": "decision-table rows, conversion-table extraction and ordering dataflow over resolved MIR",
+    "text": "Decides each link of the abort chain structurally: Params-state row for an AbortRequest of the request id = exactly one "
+            "EndRequest{RequestComplete,0} for that id and return to the initial state, other ids skipped (R11.1); stream-parser row = "
+            "Err(AbortRequest) with the header retained, constructed only in the header dispatch (R11.2); AbortRequest converts to "
+            "ConnectionAborted, whole table as documented (R11.3); run() selects ExitStatus::ABORT exactly under kind()==ConnectionAborted "
+            "of the handler's error and still calls close(); ABORT == Complete(b\"ABRT\") (R11.4); exactly three tolerated errors exist and "
+            "the record-boundary drain consults the boundary predicate after every parse before reading again (R11.5); the next request "
+            "parser skips the retained AbortRequest without replying (R11.6). With C07's R7.3/R7.4 this gives exactly one EndRequest and "
+            "reuse under KeepConn. Does NOT decide that input delivered before the error is a prefix of what was sent (C02-level).",
+    "note": "Reuses the extraction code of C04 / C07 / C12 and reports under C11's rule ids.",
+    "design_ref": "DESIGN.md §4 C11",
+}
+
 PENDING_REASON = "rules for this property are not built yet (build in progress; DESIGN.md §7 gives the order)"
